@@ -345,6 +345,10 @@ func (f *Frame) pureUF(cur *blockCur, callee *ssa.Function, args []Val, rt types
 		} else {
 			term = fmt.Sprintf("(%s %s)", n, strings.Join(terms, " "))
 		}
+		if strings.HasPrefix(hint, "spec_") {
+			// used inside a specification (possibly under a quantifier): no global name for the term
+			return Val{T: t, S: term}
+		}
 		return Val{T: t, S: c.define(fmt.Sprintf("%s_%d", hint, i+1), c.so.sortOf(t), term)}
 	}
 	var out Val
@@ -356,7 +360,9 @@ func (f *Frame) pureUF(cur *blockCur, callee *ssa.Function, args []Val, rt types
 	} else {
 		out = mk(-1, rt)
 	}
-	cur.assume(f.typeInv(out))
+	if !strings.HasPrefix(hint, "spec_") {
+		cur.assume(f.typeInv(out))
+	}
 	return out
 }
 
